@@ -136,10 +136,10 @@ def plan(tier, seed):
 def minimums(tier, counters=None):
     if counters and counters.get("unattached.prettyPrint"):
         return {"boundary.model_compared": 5000, "cli.stdout_parsed": 100, "cli.json_files_parsed": 20, "sub.outputs_parsed": 40,
-                "cli.reexport_documents_compared": 30}
+                "cli.reexport_documents_compared": 30, "cli.junk_neighbours": 100}
     return {"prettyPrint.checked": 20000, "prettyPrint.calls.width34": 15000, "prettyPrint.calls.width29": 40,
             "cli.stdout_parsed": 100, "cli.json_files_parsed": 20, "hostile.colon_quote_in_string": 1000,
-            "sub.outputs_parsed": 40, "cli.reexport_documents_compared": 30}
+            "sub.outputs_parsed": 40, "cli.reexport_documents_compared": 30, "cli.junk_neighbours": 100}
 
 
 def run(spec, ctx):
@@ -209,6 +209,18 @@ def run(spec, ctx):
         d = dirs.PelDir(os.path.join(root, "d%d" % i))
         ents = dirs.gen_dir_model(rng, u, rng.randrange(1, 9), reg=reg)
         d.extend(ents)
+        # a few undecodable neighbours (structure-aware edits of a PEL with callouts: bad sizes, counts, lengths): whatever the
+        # tool has to say about them goes to stderr, the text on stdout stays one JSON document
+        from vf import mutate
+        donor = gen.gen_pel(rng, u, reg=reg, creator="O", primary=True, nopt=2, kinds=[("SS", 3), ("MT", 2), ("UD", 2)])
+        edits = [(t, dta) for t, dta in mutate.field_edits(donor, rng) if t[0] in ("subsize", "calloutsize", "locsize", "wordcount", "count", "seclen", "calloutlen")]
+        picks = rng.sample(edits, min(4, len(edits))) + [e for e in edits if e[0][:3] == ("subsize", "PE", 23)][:1]
+        for k, (t, dta) in enumerate(picks):
+            nm = "%s_junk%d" % (rng.choice(["0", "m", "zz", ents[0].name[:3]]), k)
+            if all(e.name != nm for e in d.entries):
+                d.add(dirs.Entry(nm, None, dta, junk=True))
+                ctx.count("cli.junk_neighbours")
+                ctx.see("cli.junk_kind", "/".join(str(x) for x in t[:2]))
         outdir = os.path.join(root, "o%d" % i)
         os.makedirs(outdir, exist_ok=True)
         excl = os.path.join(root, "excl.txt")
